@@ -18,7 +18,7 @@ from picosvg.svg import SVG
 ID = "C01"
 RULE = (
     "Hypothesis draws documents from the union of the document families (structural: shapes/paths/groups/transforms/"
-    "use/nested svg/display; clip paths; strokes incl. lines; cascade with opacities via attribute/style; ignorable "
+    "use/nested svg/display; clip paths; strokes incl. lines; cascade with opacities via attribute/style; linear/radial gradients with href templates, percentages, both gradientUnits, shared by several shapes; ignorable "
     "noise; unreferenced unsupported elements filter/mask/image/text/style/symbol/pattern/marker/foreignObject/a/switch/"
     "unknown at leaf and container positions) x ndigits 0..6 x allow_text x drop_unsupported. Oracle: an independent "
     "validator (stdlib XML parser, own path-data parser, Decimal rounding test) applied to the serialised output of "
@@ -35,28 +35,16 @@ ASSUMPTIONS = [
     "a conversion that raises is a rejection, except under the drop_unsupported metamorphic clause",
 ]
 
-CFGS = {
-    "structural": docs.Cfg(transforms=True, groups=True, use=True, nested=True, display=True, translucent_fill=True),
-    "clip": docs.Cfg(transforms=True, groups=True, use=True, nested=False, display=False, clip=True, max_leaves=5),
-    "stroke": docs.Cfg(transforms=True, groups=True, use=True, nested=False, display=False, stroke=True, lines=True, max_leaves=4),
-    "cascade": docs.Cfg(transforms=True, groups=True, use=True, nested=False, display=False, cascade=True, opacity=True, max_leaves=6),
-    "mixed": docs.Cfg(transforms=True, groups=True, use=True, nested=True, display=True, clip=True, stroke=True, lines=True, opacity=True, cascade=False, max_leaves=6),
-}
+from vlib.gen import families
 
-
-def _both_hooks(draw, cx, n):
-    docs.stroke_hook(draw, cx, n)
-    if draw(st.integers(0, 2)) == 0:
-        docs.cascade_hook(draw, cx, n)
-
-
-HOOKS = {"structural": None, "clip": None, "stroke": docs.stroke_hook, "cascade": docs.cascade_hook, "mixed": _both_hooks}
+CFGS = dict(families.CFGS)
+HOOKS = dict(families.HOOKS)
 
 
 @st.composite
 def c01_case(draw):
     fam = draw(st.sampled_from(sorted(CFGS)))
-    root, feat = draw(docs.document_ast(CFGS[fam], hook=HOOKS[fam], root_hook=docs.root_cascade_hook if fam in ("cascade", "mixed") else None))
+    root, feat = draw(docs.document_ast(CFGS[fam], hook=HOOKS[fam], root_hook=docs.root_cascade_hook if fam in ("cascade", "mixed", "gradient") else None))
     feat = list(feat) + ["family:" + fam]
     base = docs.serialize(root, root=True)
     case = {"ndigits": draw(st.sampled_from([3, 3, 0, 1, 2, 4, 5, 6])), "allow_text": draw(st.sampled_from([False, False, True])), "drop_unsupported": draw(st.sampled_from([False, True]))}
